@@ -137,9 +137,11 @@ func (c *CircuitBreaker) activateFallback(_ http.ResponseWriter, _ *http.Request
 	switch c.state {
 	case stateStandby:
 		// someone else has set it to standby just now
+		verifEmit("cb.admit", c, "pass", int(c.state))
 		return false
 	case stateTripped:
 		if clock.Now().UTC().Before(c.until) {
+			verifEmit("cb.admit", c, "fallback", int(c.state))
 			return true
 		}
 		// We have been in active state enough, enter recovering state
@@ -149,12 +151,15 @@ func (c *CircuitBreaker) activateFallback(_ http.ResponseWriter, _ *http.Request
 		// We have been in recovering state enough, enter standby and allow request
 		if clock.Now().UTC().After(c.until) {
 			c.setState(stateStandby, clock.Now().UTC())
+			verifEmit("cb.admit", c, "pass", int(c.state))
 			return false
 		}
 		// ratio controller allows this request
 		if c.rc.allowRequest() {
+			verifEmit("cb.admit", c, "pass", int(c.state))
 			return false
 		}
+		verifEmit("cb.admit", c, "fallback", int(c.state))
 		return true
 	}
 	return false
@@ -206,6 +211,7 @@ func (c *CircuitBreaker) setState(state cbState, until time.Time) {
 	c.log.Debug("%v setting state to %v, until %v", c, state, until)
 	c.state = state
 	c.until = until
+	verifEmit("cb.state", c, int(state), until.UnixNano())
 	switch state {
 	case stateTripped:
 		c.exec(c.onTripped)
@@ -241,8 +247,10 @@ func (c *CircuitBreaker) checkAndSet() {
 	}
 
 	if !c.condition(c) {
+		verifEmit("cb.check", c, false)
 		return
 	}
+	verifEmit("cb.check", c, true)
 
 	c.setState(stateTripped, clock.Now().UTC().Add(c.fallbackDuration))
 	c.metrics.Reset()
